@@ -370,7 +370,7 @@ def run_est(initialize, dt_min, word):
 
 
 def explore_est(case):
-    tier, initialize, dt_min, first = case["tier"], case["initialize"], case["dt_min"], case["first"]
+    tier, initialize, dt_min, first = case["tier"], case["initialize"], tuple(case["dt_min"]), case["first"]
     depth = 5 if tier == "thorough" else 4
     res = core.Result()
     evs = [(s, d) for s in ("imu", "mag") for d in DTS]
